@@ -92,8 +92,10 @@ Inductive op :=
 | OPing (ack : bool)
 | OProcess                                           (* one call of processData *)
 | OClose                                             (* closeConnection *)
-| OApi (lasts : list Z).                             (* transport API above loopy: on a fresh stream of a real
+| OApi (lasts : list Z)                             (* transport API above loopy: on a fresh stream of a real
                                                         http2Client call Write once per element, Last = element *)
+| OEarlyAbort (id L : Z) (rst : bool).               (* earlyAbortStream: trailers-only response (block length L)
+                                                        for a stream that was never registered with loopy *)
 
 Definition dec_op (w : word) : option op :=
   match w with
@@ -112,6 +114,7 @@ Definition dec_op (w : word) : option op :=
     if t =? 12 then match a with [] => Some OClose | _ => None end else
     if t =? 21 then match a with [sid; v] => Some (OSetOther sid v) | _ => None end else
     if t =? 30 then Some (OApi a) else
+    if t =? 14 then match a with [id; _; L; rst] => Some (OEarlyAbort id L (z2b rst)) | _ => None end else
     None
   end.
 
@@ -287,6 +290,13 @@ Definition handle (s : state) (o : op) : state * res :=
   | OProcess => processData s
   | OClose => (s, mkR 1 false [])
   | OApi l => (s, ok_res (api_writes false l))
+  | OEarlyAbort id L rst =>
+    match aget id (estd s) with
+    | Some _ => (s, mkR 2 false [])     (* not executed: early abort is only for unregistered streams *)
+    | None =>
+      if side s =? 0 then (s, mkR 1 false [])
+      else (s, ok_res (writeHeader id true L ++ (if rst then [FRst id] else [])))
+    end
   end.
 
 (* run(): once handle/processData returned an error (or would have panicked) loopy is gone *)
@@ -519,6 +529,7 @@ Definition b_op (bl : bledger) (o : op) (c : Z) (fr : list frame) : bledger :=
   | OServerHeaders id es _ _ =>
     if es then aupd id (fun b => mkB (b_q b) true (b_ended b)) bl else bl
   | OCleanup id _ => adel id bl
+  | OEarlyAbort id _ _ => match fr with [] => bl | _ => bl ++ [(id, b_new)] end  (* open for its one block *)
   | _ => bl
   end.
 
